@@ -10,7 +10,16 @@ open Gv.Str
 inductive Kind
   | bool | int | int8 | int16 | int32 | int64 | uint | uint8 | uint16 | uint32 | uint64 | uintptr
   | float32 | float64 | complex64 | complex128 | string | unsafePointer | invalid
+  /-- the predeclared aliases `byte` (= uint8) and `rune` (= int32): identical Go types, but goverter keys its method
+      and extend tables and `skipCopySameType` on the type's text, where the two spellings differ -/
+  | byte | rune
   deriving Repr, DecidableEq, Inhabited
+
+/-- the kind as `go/types` reports it (`BasicType.Kind()`): the aliases are their target kinds -/
+def Kind.canon : Kind → Kind
+  | .byte => .uint8
+  | .rune => .int32
+  | k => k
 
 /-- kinds of types goverter never converts structurally -/
 inductive OKind | iface | func | chan | tparam | generic | tuple | unknown
@@ -21,6 +30,8 @@ structure FieldInfo where
   exported : Bool
   embedded : Bool
   pkg : S
+  /-- the field tag: part of the identity of a struct type (and of the text goverter keys its tables on) -/
+  tag : S := []
   deriving Repr, DecidableEq, Inhabited
 
 mutual
@@ -143,12 +154,13 @@ def Kind.name : Kind → String
   | .uint => "uint" | .uint8 => "uint8" | .uint16 => "uint16" | .uint32 => "uint32" | .uint64 => "uint64" | .uintptr => "uintptr"
   | .float32 => "float32" | .float64 => "float64" | .complex64 => "complex64" | .complex128 => "complex128"
   | .string => "string" | .unsafePointer => "unsafe.Pointer" | .invalid => "invalid type"
+  | .byte => "byte" | .rune => "rune"
 
 def Kind.ofName : String → Kind
   | "bool" => .bool | "int" => .int | "int8" => .int8 | "int16" => .int16 | "int32" => .int32 | "int64" => .int64
   | "uint" => .uint | "uint8" => .uint8 | "uint16" => .uint16 | "uint32" => .uint32 | "uint64" => .uint64 | "uintptr" => .uintptr
   | "float32" => .float32 | "float64" => .float64 | "complex64" => .complex64 | "complex128" => .complex128
-  | "string" => .string | "unsafepointer" => .unsafePointer | _ => .invalid
+  | "string" => .string | "unsafepointer" => .unsafePointer | "byte" => .byte | "rune" => .rune | _ => .invalid
 
 /-- kinds `enum.Detect` accepts: IsFloat | IsString | IsInteger -/
 def Kind.enumOK : Kind → Bool
